@@ -49,8 +49,8 @@ CHECKS = {
         design="§5 C02"),
     "C03": dict(
         engine="corr-trace",
-        technique="Coq proof (for every schedule flat tests and clone sources are never executed: invariant over resume/run_schedule; rerun is granted only below max_tries) + trace refinement; the per-scope execution count is a monitor on the implementation's runs",
-        text=('PARTIAL. Proved for all graphs, pools and schedules: flat and clone-source nodes are never executed; should_rerun grants a rerun only while the counted results (in-flight placeholders included) are below max_tries; a stateless test without results runs once; for every graph, pool population and schedule a test that saves no state is started only with an identifier (= number of results on its class so far) below its budget max(1, max_tries) and is therefore executed on a node copy at most that often (C03_stateless_executions_within_budget, Proofs/TraverseUid.v; stateful tests, whose scan-triggered runs are not bounded by the counter alone, stay with the monitor). Checked on the real code: executions per class and reuse scope <= max(1, max_tries) (unless an occupation bump occurred or max_concurrent_tries exceeds max_tries), setup found present at first examination is not executed, execution ids are not reused. A budget violation found this way (concurrent creation pre-steps) was repaired (fix: e60d612).'),
+        technique="Coq proof (for every schedule flat tests and clone sources are never executed: invariant over resume/run_schedule; rerun is granted only below max_tries; a setup test found present at its first examination is never executed: class invariant along a trace automaton over resume/run_schedule) + trace refinement; the per-scope execution count is a monitor on the implementation's runs",
+        text=('PARTIAL. Proved for all graphs, pools and schedules: flat and clone-source nodes are never executed; should_rerun grants a rerun only while the counted results (in-flight placeholders included) are below max_tries; a stateless test without results runs once; for every graph, pool population and schedule a test that saves no state is started only with an identifier (= number of results on its class so far) below its budget max(1, max_tries) and is therefore executed on a node copy at most that often (C03_stateless_executions_within_budget, Proofs/TraverseUid.v; stateful tests, whose scan-triggered runs are not bounded by the counter alone, stay with the monitor). For the global reuse scope, every graph meeting cls_all_b (checked on every exported graph; fails only for mixed lxc/remote worker sets under a partial pool_scope), every pool population, schedule and any number of workers: if the first thing that happens to the copies of a setup test (before any worker failed) is an examination that finds its states present, no copy is ever executed in the run (C03_present_setup_never_executed, Proofs/TraversePresent.v: trace automaton + class invariant: finished marker and no results). Checked on the real code: executions per class and reuse scope <= max(1, max_tries) (unless an occupation bump occurred or max_concurrent_tries exceeds max_tries), setup found present at first examination is not executed, execution ids are not reused. A budget violation found this way (concurrent creation pre-steps) was repaired (fix: e60d612).'),
         note=TRAV_NOTE,
         design="§5 C03"),
     "C04": dict(
